@@ -137,26 +137,27 @@ theorem whole_commit {c : Cbuf} (hi : Inv c) (got : List UInt8) (hn : 0 < got.le
 
 /-- `cbuf_grow` keeps the replayable and the unread bytes (it moves the cells from i_rep to the
     end of the old array to the end of the new one when the region wraps) -/
-theorem grow_whole {c : Cbuf} (hi : Inv c) (n : Nat) (hlt : c.size < c.maxsize) (hn : 0 < n) :
-    whole (grow c n).1 = whole c := by
-  have g := grow_ok hi n hlt hn
+theorem grow_whole {c : Cbuf} (hi : Inv c) (n : Nat) (hlt : c.size < c.maxsize) (hn : 0 < n)
+    (pol : Policy := chunkPolicy) [Admissible pol] :
+    whole (grow c n pol).1 = whole c := by
+  have g := grow_ok hi n hlt hn pol
   have := hi.spos; have := hi.smin; have := hi.smax; have := hi.alloc; have := hi.used
   have := hi.iin; have := hi.iout; have := hi.irep; have hds := hi.dsize
   obtain ⟨hru, hro, hri⟩ := reused_facts hi
-  have hreu : reused (grow c n).1 = reused c := g.nrepl
+  have hreu : reused (grow c n pol).1 = reused c := g.nrepl
   have hsz := g.size; have hpos := g.pos
   unfold whole
   rw [hreu, g.used]
   generalize reused c = r at hru hro hri
   have hne : ¬ c.size = c.maxsize := by omega
-  generalize hx : Gen.CBUF_CHUNK - (c.alloc + n) % Gen.CBUF_CHUNK = x
-  generalize hs' : min (c.alloc + n + x) (c.maxsize + (c.alloc - c.size)) - (c.alloc - c.size) = s'
+  generalize hx : pol c.alloc n c.minsize c.maxsize = x
+  generalize hs' : min x (c.maxsize + (c.alloc - c.size)) - (c.alloc - c.size) = s'
   have hri' := @wrap_cases (c.iRep + (r + c.used)) (c.size + 1) (by omega)
   by_cases hrep : c.iRep > c.iIn
-  · have hsize : (grow c n).1.size = s' := by simp only [grow, hne, if_false, hrep, if_true, hx, hs']
-    have hirep : (grow c n).1.iRep = s' + 1 - (c.size + 1 - c.iRep) := by
+  · have hsize : (grow c n pol).1.size = s' := by simp only [grow, hne, if_false, hrep, if_true, hx, hs']
+    have hirep : (grow c n pol).1.iRep = s' + 1 - (c.size + 1 - c.iRep) := by
       simp only [grow, hne, if_false, hrep, if_true, hx, hs']
-    have hdata : (grow c n).1.data = circWrite (c.data ++ Array.replicate (s' - c.size) 0) (s' + 1)
+    have hdata : (grow c n pol).1.data = circWrite (c.data ++ Array.replicate (s' - c.size) 0) (s' + 1)
                               (s' + 1 - (c.size + 1 - c.iRep))
                               (circRead c.data (c.size + 1) c.iRep (c.size + 1 - c.iRep)) := by
       simp only [grow, hne, if_false, hrep, if_true, hx, hs']
@@ -189,9 +190,9 @@ theorem grow_whole {c : Cbuf} (hi : Inv c) (n : Nat) (hlt : c.size < c.maxsize) 
       have heq : (s' + 1 - (c.size + 1 - c.iRep) + k) % (s' + 1) = (c.iRep + k) % (c.size + 1) := by omega
       rw [heq]
       exact getD_append_left _ _ _ (by rw [hds]; omega)
-  · have hsize : (grow c n).1.size = s' := by simp only [grow, hne, if_false, hrep, hx, hs']
-    have hirep : (grow c n).1.iRep = c.iRep := by simp only [grow, hne, if_false, hrep, hx, hs']
-    have hdata : (grow c n).1.data = c.data ++ Array.replicate (s' - c.size) 0 := by
+  · have hsize : (grow c n pol).1.size = s' := by simp only [grow, hne, if_false, hrep, hx, hs']
+    have hirep : (grow c n pol).1.iRep = c.iRep := by simp only [grow, hne, if_false, hrep, hx, hs']
+    have hdata : (grow c n pol).1.data = c.data ++ Array.replicate (s' - c.size) 0 := by
       simp only [grow, hne, if_false, hrep, hx, hs']
     rw [hsize] at hsz
     rw [hsize, hirep, hdata]
@@ -201,13 +202,13 @@ theorem grow_whole {c : Cbuf} (hi : Inv c) (n : Nat) (hlt : c.size < c.maxsize) 
         Nat.mod_eq_of_lt (show c.iRep + k < c.size + 1 by omega)]
     exact getD_append_left _ _ _ (by rw [hds]; omega)
 
-theorem maybeGrow_whole {c0 : Cbuf} (hi : Inv c0) (len0 : Nat) :
-    whole (maybeGrow c0 len0).1 = whole c0 := by
+theorem maybeGrow_whole {c0 : Cbuf} (hi : Inv c0) (len0 : Nat) (pol : Policy := chunkPolicy) [Admissible pol] :
+    whole (maybeGrow c0 len0 pol).1 = whole c0 := by
   have := hi.used
   unfold maybeGrow
   by_cases h : len0 > c0.size - c0.used ∧ c0.size < c0.maxsize
   · simp only [h, and_self, if_true]
-    exact grow_whole hi _ h.2 (by omega)
+    exact grow_whole hi _ h.2 (by omega) pol
   · simp only [h, if_false]
 
 /-- everything a source holds (a memory source: the caller's buffer; a descriptor: what it has) -/
@@ -223,13 +224,14 @@ theorem whole_le {c : Cbuf} (hi : Inv c) : (whole c).length ≤ c.size := by
 
 /-- `cbuf_writer`: the buffer ends up holding the newest `size` bytes of
     "replayable, unread, accepted", where accepted = the first `ret` bytes of the source -/
-theorem writer_whole {c0 : Cbuf} (hi : Inv c0) (len0 : Nat) (hl : 0 < len0) (src : Src) (hs : src.ok len0) :
-    whole (writer c0 len0 src).c =
-      Spec.lastN (writer c0 len0 src).c.size (whole c0 ++ src.bytes.take (writer c0 len0 src).ret.toNat) := by
-  have hg := maybeGrow_ok hi len0
-  have hgw := maybeGrow_whole hi len0
+theorem writer_whole {c0 : Cbuf} (hi : Inv c0) (len0 : Nat) (hl : 0 < len0) (src : Src) (hs : src.ok len0)
+    (pol : Policy := chunkPolicy) [Admissible pol] :
+    whole (writer c0 len0 src pol).c =
+      Spec.lastN (writer c0 len0 src pol).c.size (whole c0 ++ src.bytes.take (writer c0 len0 src pol).ret.toNat) := by
+  have hg := maybeGrow_ok hi len0 pol
+  have hgw := maybeGrow_whole hi len0 pol
   unfold writer
-  generalize maybeGrow c0 len0 = p at hg hgw
+  generalize maybeGrow c0 len0 pol = p at hg hgw
   obtain ⟨c, nfree⟩ := p
   simp only at hg hgw ⊢
   have hci := hg.inv
